@@ -96,6 +96,24 @@ def hostile_id_histories(s, n):
                 cur = ev['post_xml']
 
 
+def repeated_metadata_fields(s):
+    """roMetadataReplace messages that give one header field twice (the same tag, the same mosSchema), met by
+    running orders that have / do not have that field."""
+    E = B.E
+    idx = 0
+    blk = lambda sch, v: E('mosExternalMetadata', None, E('mosScope', 'PLAYLIST'), E('mosSchema', sch), E('mosPayload', None, E('v', v)))
+    for layout in ('none', 'before', 'between', 'everywhere'):
+        ro_txt = gen.grid_ro(['A', 'B', 'C', 'D'], layout, pretty=False)
+        for carried in ([E('roSlug', 'x'), E('roSlug', 'y')], [E('roEdStart', '2021-01-01T00:00:00'), E('roEdStart', '2022-01-01T00:00:00')],
+                        [E('roChannel', 'c1'), E('roChannel', 'c2')], [E('macroIn', 'm1'), E('macroIn', 'm2'), E('macroIn', 'm3')],
+                        [blk('http://between/2', '1'), blk('http://between/2', '2')], [blk('http://new/1', '1'), blk('http://new/1', '2')],
+                        [E('roSlug', 'x'), blk('http://between/2', '1'), E('roTrigger', 't'), blk('http://between/2', '2'), E('roSlug', 'z')]):
+            idx += 1
+            if s.mine(idx):
+                K.run_case(s, ro_txt, 'roMetadataReplace', dict(carried=[B.clone(c) for c in carried]), ctx={'repeated-fields': layout})
+    s.hist['repeated_metadata_field_cases'] = idx
+
+
 def ran_to_the_end(s, mc, docs):
     """What the one-by-one fold reaches after the long run of failing messages (the story appended after it,
     the completion) the collection has reached too."""
@@ -181,6 +199,7 @@ def run(s):
     K.story_grid(s, 3, layouts=('between',), pretties=(False,), full=False, timed=(False,))
     K.item_grid(s, 2, pretties=(False,), full=False, inters=(True,))
     K.idless_cases(s)
+    repeated_metadata_fields(s)
     K.story_grid(s, 6, layouts=('none',), pretties=(False,), kmax=2, full=False, names=K.HOSTILE_NAMES_C)
     K.item_grid(s, 6, pretties=(False,), kmax=2, full=False, inters=(False,), item_names=K.HOSTILE_NAMES_C)
     K.fuzz(s, 150 if q else 6000, K.kind_weights(1, 1, 0.4, 0.02), steps=(10, 40), text='hostile',
